@@ -109,7 +109,7 @@ def generated_table():
     head = src[:src.index("macro_rules! atom")]
     strings = [rust_str(m) for m in re.findall(r"^\s*" + STR + r",\s*$", head, flags=re.M)]
     mac = src[src.index("macro_rules! atom"):src.index("pub static STATIC_ATOMS_MAP")]
-    arms = [(rust_str(k), int(v)) for k, v in re.findall(r"\(" + STR + r"\) => \{\s*Atom \{ index: (\d+)u64 \}", mac)]
+    arms = [(rust_str(k), int(v)) for k, v in re.findall(r"\(" + STR + r"\) => \{\s*Atom \{\s*index: (\d+)u64,?\s*\}", mac)]
     return path, strings, arms
 
 
@@ -122,6 +122,7 @@ def hx(s):
 HELPER = r"""
 :- use_module(library(lists)).
 :- use_module(library(charsio)).
+:- use_module(library(between)).
 :- dynamic(c21_tmp/1).
 :- dynamic(c21_idx/2).
 c21_cc(C, Ch) :- char_code(Ch, C).
@@ -130,9 +131,9 @@ c21_route(codes, Cs, A) :- atom_codes(A, Cs).
 c21_route(chars, Cs, A) :- maplist(c21_cc, Cs, Chs), atom_chars(A, Chs).
 c21_route(concat, Cs, A) :- length(Cs, N), K is N // 2, length(X, K), append(X, Y, Cs), atom_codes(AX, X), atom_codes(AY, Y), atom_concat(AX, AY, A).
 c21_route(concat1, [C|Y], A) :- char_code(AX, C), atom_codes(AY, Y), atom_concat(AX, AY, A).
-c21_route(concat_tail, Cs, A) :- append(Cs, "#tail", Cs2), atom_codes(Z, Cs2), atom_concat(A, '#tail', Z).
-c21_route(concat_enum, Cs, A) :- append("<", Cs, Cs2), atom_codes(Z, Cs2), atom_concat(X, A, Z), X == '<', !.
-c21_route(sub, Cs, A) :- append([0'<|Cs], ">>", Cs2), atom_codes(Z, Cs2), length(Cs, Len), sub_atom(Z, 1, Len, 2, A).
+c21_route(concat_tail, Cs, A) :- append(Cs, [0'#,0't,0'a,0'i,0'l], Cs2), atom_codes(Z, Cs2), atom_concat(A, '#tail', Z).
+c21_route(concat_enum, Cs, A) :- atom_codes(Z, [0'<|Cs]), atom_concat(X, A, Z), X == (<), !.
+c21_route(sub, Cs, A) :- append([0'<|Cs], [0'>,0'>], Cs2), atom_codes(Z, Cs2), length(Cs, Len), sub_atom(Z, 1, Len, 2, A).
 c21_route(sub_whole, Cs, A) :- atom_codes(Z, Cs), sub_atom(Z, 0, _, 0, A).
 c21_route(char, [C], A) :- char_code(A, C).
 c21_route(number, Cs, A) :- number_codes(N, Cs), number_chars(N, Chs), atom_chars(A, Chs).
@@ -154,15 +155,19 @@ c21_run(Specs, Eq, Cmp, Fun, Idx, Lit, Rt) :-
     findall(Js, (member(X, As), findall(J, c21_lit(X, J), Js)), Lit),
     findall(Cs, (member(X, As), (atom(X) -> atom_codes(X, Cs) ; Cs = failed)), Rt).
 c21_g1(Tag, I, A) :- number_codes(I, Cs), append(Tag, Cs, Cs2), atom_codes(A, Cs2).
-c21_g2(Tag, I, A) :- number_codes(I, Cs), atom_codes(T, Tag), atom_chars(S, Cs), atom_concat(T, S, A).
-c21_growth(Tag, N, Same, Distinct, Again, Back) :-
-    numlist(1, N, Ns),
+c21_g2(Tag, I, A) :- number_chars(I, Chs), atom_codes(T, Tag), atom_chars(S, Chs), atom_concat(T, S, A).
+c21_diff([], [], _, []).
+c21_diff([X|Xs], [Y|Ys], I, Ds) :- ( X == Y -> Ds = Ds1 ; Ds = [I|Ds1] ), I1 is I + 1, c21_diff(Xs, Ys, I1, Ds1).
+c21_growth(TagAtom, N, Same, Distinct, Again, Back) :-
+    atom_codes(TagAtom, Tag),
+    findall(I0, between(1, N, I0), Ns),
     maplist(c21_g1(Tag), Ns, As1), maplist(c21_g2(Tag), Ns, As2),
-    findall(I, (nth1(I, As1, X), nth1(I, As2, Y), X \== Y), Same),
+    c21_diff(As1, As2, 1, Same),
     sort(As1, Sorted), length(Sorted, Distinct),
     maplist(c21_g1(Tag), Ns, As3),
-    findall(I, (nth1(I, As1, X), nth1(I, As3, Y), X \== Y), Again),
-    findall(I, (nth1(I, As1, X), c21_g1(Tag, I, Y), atom_codes(X, C1), atom_codes(Y, C2), C1 \== C2), Back).
+    c21_diff(As1, As3, 1, Again),
+    maplist(atom_codes, As1, Cs1), maplist(atom_codes, As3, Cs3),
+    c21_diff(Cs1, Cs3, 1, Back).
 """
 
 ROUTES_ANY = ["codes", "chars", "concat", "concat_tail", "concat_enum", "sub", "sub_whole", "read", "findall", "assert", "copy", "univ"]
@@ -214,7 +219,7 @@ def make_case(rng, cid, statics, force=None):
     if force is not None:
         base = force
     elif r < 0.55:
-        base = rand_text(rng, rng.choice([0, 1, 2, 3, 4, 5, 5, 6, 6, 6, 7, 7, 7, 8, 9, 12]))
+        base = rand_text(rng, rng.choice([0, 1, 2, 3, 4, 5, 5, 6, 6, 6, 7, 7, 7, 8, 9, 12, 16, 31, 41, 64, 200]))
     elif r < 0.75:
         base = rng.choice(BUILTIN_NAMES)
     elif r < 0.9 and statics:
@@ -250,7 +255,7 @@ def case_lines(c):
     n = c["id"][1:]
     if c["kind"] == "growth":
         return ["L\th%s\tuser\t%s" % (n, hesc(HELPER + "c21_lit(none, -1).\n")),
-                "Q\t%s\t1\tc21_growth(\"%s\", %d, Same, Distinct, Again, Back)." % (c["id"], c["tag"], c["n"])]
+                "Q\t%s\t1\tc21_growth('%s', %d, Same, Distinct, Again, Back)." % (c["id"], c["tag"], c["n"])]
     texts = [unhx(h) for h in c["texts"]]
     lit = "".join("c21_lit(%s, %d).\n" % (to_prolog(A(t)), j) for j, t in enumerate(texts))
     specs = []
@@ -307,7 +312,7 @@ def judge_matrix(c, ires, mres):
                 break
     pr = parse_result(ires, True)
     if pr[0] != 'ans' or len(pr[1]) != 1:
-        out.append(("violation", dict(sig0, what="no-result", impl=str(ires)[:100]), "the atom matrix query gave no answer: %s" % str(ires)[:300]))
+        out.append(("violation", dict(sig0, what="no-result", impl=str(ires)[:100], texts="/".join(c["texts"])[:60]), "the atom matrix query gave no answer: %s" % str(ires)[:300]))
         return out
     b = pr[1][0]
 
